@@ -10,7 +10,7 @@ from vlib.workers import ALL, WorkerDied, WorkerSet
 PROPERTY = "C07"
 LEVEL = "exploration"
 RACE_INTERPS = ALL
-RULE = ("Blocked leg (CPython 3.9-3.12): Hypothesis-generated thread bodies of call depth 1..6 with 0-3 nested with blocks "
+RULE = ("(Every other shard runs its interpreters under PYTHONOPTIMIZE=1 - python -O, assert statements compiled away - and the stress run is done both ways.) Blocked leg (CPython 3.9-3.12): Hypothesis-generated thread bodies of call depth 1..6 with 0-3 nested with blocks "
         "per frame (single and multi-item, inside try/finally), each level calling inward by a plain / returned / *args / **kwargs call, (plus one thread whose stack is 300 frames deeper than the recursion limit in force when it is inspected), the thread being a Thread(target=...), a Thread subclass, a Timer or a thread started through _thread (dummy Thread object), blocked on an Event at the innermost level or with the innermost level itself blocked in a C callable (lock.acquire, same four call forms); oracle = shadow call "
         "log: harness frames of extract(thread) equal it outermost first with contexts equal to each frame's managers, all "
         "frames equal the thread's f_back chain, threading internals hidden; unstarted / finished threads give no frames and no "
@@ -125,9 +125,23 @@ def check_cells(ws, cells, ks, out):
     return viols
 
 
+OPT_ENV = {"PYTHONOPTIMIZE": "1"}   # python -O: assert statements are compiled away
+
+
 def shard(arg):
+    out = shard_body(arg)
+    if arg.get("optimize"):
+        for v in out.violations:
+            if isinstance(v.get("case"), dict):
+                v["case"]["optimize"] = True
+    return out
+
+
+def shard_body(arg):
     out = Outcome()
-    with WorkerSet(ALL, hooks=True, timeout=600) as ws:
+    with WorkerSet(ALL, hooks=True, timeout=600, extra_env=OPT_ENV if arg.get("optimize") else None) as ws:
+        if arg.get("optimize"):
+            out.hist["shards_run_under_python_-O"] += 1
         if arg.get("deep"):
             for interp in ALL:
                 case = {"deep_thread": True}
@@ -186,8 +200,11 @@ def run(ctx):
     else:
         ks = [1, 2, 3, 4, 5, 6, 8, 12]
     args = [{"seed": ctx.shard_seed(i), "n": ctx.pick(96, 4800) // nshards, "shrink": not ctx.quick,
-             "cells": cells[i::nshards], "ks": ks, "stress": ctx.pick(500, 40000) if i == 0 else 0,
-             "n_gen": ctx.pick(72, 4800) // nshards, "deep": i == 1}
+             "cells": cells[i::nshards], "ks": ks, "stress": ctx.pick(500, 40000) if i in (0, 1) else 0,
+             "n_gen": ctx.pick(72, 4800) // nshards, "deep": i == 1,
+             # every other shard runs its interpreters with -O (the safety of the inspectors must not rest on assert
+             # statements); the stress run is done both ways
+             "optimize": i % 2 == 1}
             for i in range(nshards)]
     out = run_shards("checks.c07", "shard", args)
     out.extra["interpreters_blocked_leg"] = ALL
@@ -214,7 +231,7 @@ def replay(ctx, data):
         return replay_deep(ctx, data)
     out = Outcome()
     case = data["case"]
-    with WorkerSet(ALL, hooks=True, timeout=600) as ws:
+    with WorkerSet(ALL, hooks=True, timeout=600, extra_env=OPT_ENV if case.get("optimize") else None) as ws:
         if "levels" in case:
             interps = [data["interp"]] if data.get("interp") in ALL else ALL
             for v in check_blocked(ws, interps, case["levels"], out):
